@@ -224,7 +224,7 @@ func runConcOne(o fsOpts, res *result, j int, id, dir string) {
 		res.Mismatches = append(res.Mismatches, h.Mismatch{Hist: id, Kind: "harness-error", Impl: []string{err.Error()}})
 		return
 	}
-	defer e.Close()
+	defer e.Shutdown()
 	fail := func(what string, calls []string) {
 		res.OracleFails = append(res.OracleFails, OracleFail{Property: "C11", Hist: id, What: what, Calls: calls})
 	}
